@@ -8,7 +8,9 @@ RULE = (
     "cost vectors (sloss = 0, boundary, infinite transfer cost over-sampled); usreconcile_extended_uspfs / "
     "usreconcile_base_uspfs under both policies vs the Lean model (same solution set) and the Lean specification: "
     "validity and cost = minimum over all species mappings and EVERY labelling between the required content and "
-    "the content allowed by the gain nodes (not only the two canonical choices the solver searches).  "
+    "the content allowed by the gain nodes (not only the two canonical choices the solver searches).  Thorough: "
+    "additionally EVERY input up to 4 object leaves x 2 species leaves x 2 families and up to 3 object leaves x 2 "
+    "species leaves x 3 families (every leaf assignment, every non-empty family subset per leaf) on two resp. one cost vectors.  "
     "Non-trivial = at least 3 object leaves and 2 species."
 )
 TRUSTED = [
@@ -26,11 +28,27 @@ CORPUS = [
     {"S": [], "O": {"s": "", "f": [0, 1]}},
 ]
 
+EXH_COSTS = [
+    {"spe": 0, "dup": 1, "hgt": 1, "floss": 1, "sloss": 1},
+    {"spe": 2, "dup": 0, "hgt": 0, "floss": 1, "sloss": 0},      # boundary of the coherent region, sloss = 0
+    {"spe": 1, "dup": 1, "hgt": "inf", "floss": 1, "sloss": 1},  # boundary, no transfer
+]
+
+
+def _exhaustive():
+    from .. import gen
+
+    for scope, grid in (((4, 2, 2), EXH_COSTS[:2]), ((3, 2, 3), EXH_COSTS[2:])):
+        for base in gen.exhaustive_labelled_cases(*scope, ordered=False):
+            for g in grid:
+                yield {**base, "costs": dict(g)}
+
+
 corpus, run, shrink, replay = make(
     ID, ["superdtl", "base_uspfs"],
     [(lambda ctx, rng: solvers.unordered_case(ctx, rng, 5, 4, 4), 1.0)],
     lambda res, r: solvers.judge_optimal(res, r, ID),
-    quick=1200, thorough=8000, corpus_cases=CORPUS, known_algos=["superdtl"],
+    quick=1200, thorough=8000, corpus_cases=CORPUS, known_algos=["superdtl"], exhaustive=_exhaustive,
 )
 
 
